@@ -1,7 +1,8 @@
 import KafVerif.Model.SqlParser
 import KafVerif.Prelude.Driver
 /-! Line-protocol driver for the SQL parser model (C35): `p <hex>` -> canonical parse result.
-`o <hex>` runs the pre-fix lowering (`parseOld`) and prints only ok/err/panic. -/
+`o <hex>` runs the pre-fix lowering (`parseOld`) and prints only ok/err/panic.
+`l <hex>` prints `lower <hex of asciiLower s>` (Go: lowerASCII through VerifLowerASCII). -/
 open KafVerif KafVerif.SqlParser
 
 def hxList (xs : List Bytes) : String := if xs.isEmpty then "-" else joinWith "," (xs.map toHex)
@@ -29,6 +30,9 @@ def stepLine (u : Unit) (ws : List String) : Unit × String :=
     | none => (u, "bad-op")
   | ["o", hx] => match fromHex hx with
     | some q => (u, (parseOld q).tag)
+    | none => (u, "bad-op")
+  | ["l", hx] => match fromHex hx with
+    | some q => (u, "lower " ++ toHex (asciiLower q))
     | none => (u, "bad-op")
   | _ => (u, "bad-op")
 
